@@ -1,6 +1,7 @@
 //! kharness: correspondence / oracle driver.  `kharness <Cxx> <quick|thorough> <seed> <out.json>`
 //! or `kharness replay <Cxx> <case.json-as-k=v-lines-file>`.
 mod alloc;
+mod cli;
 mod drops;
 #[allow(dead_code)]
 #[path = "/repo/src/cli/src/errors.rs"]
@@ -36,6 +37,10 @@ fn prop_by_id(id: &str) -> Option<Box<dyn Prop>> {
         "C20" => Some(Box::new(props::c20::C20)),
         "C09" => Some(Box::new(props::c09::C09)),
         "C10" => Some(Box::new(props::c10::C10)),
+        "C12" => Some(Box::new(props::c12::C12)),
+        "C13" => Some(Box::new(props::c13::C13)),
+        "C14" => Some(Box::new(props::c14::C14)),
+        "C16" => Some(Box::new(props::c16::C16)),
         "C15" => Some(Box::new(props::c15::C15)),
         "C17" => Some(Box::new(props::c17::C17)),
         "C18" => Some(Box::new(props::c18::C18)),
